@@ -26,6 +26,7 @@ CONSTANTS
  E2E = FALSE
  Aead = TRUE
  CheckIdent = TRUE
+ RelayOnce = TRUE
  AutoTimers = FALSE
 INVARIANT TraceAccepted
 INVARIANT ExitIntegrity
